@@ -81,6 +81,18 @@ def check_header(c):
     hi = build_header_ints(c)
     eq(devs, "hdr.plain_int_fields.pack", bytes(hi.pack()), want)
     eq(devs, "hdr.plain_int_fields.obs", obs_header(hi), want_header_obs(c))
+    # a channel without a VCF count field (length 0): whatever running count the object carries, the header is the 7 octets of the standard
+    import copy as _copy
+
+    h0 = build_header(c)
+    h0.vcf_count_len = 0
+    h0.vcf_count = c["vcf_count"] or 5
+    w0 = RU.primary_header(c["scid"], c["src_dest"], c["vcid"], c["map_id"], c["frame_len"], c["bypass"], c["prot_cmd"], c["ocf_flag"], 0, 0)
+    eq(devs, "hdr.vcf_len_zero_with_a_count.pack", bytes(h0.pack()), w0)
+    eq(devs, "hdr.vcf_len_zero_with_a_count.len", h0.len(), 7)
+    from ..core import copies_equal
+
+    copies_equal(devs, "hdr.copy", build_header(c), lambda o: bytes(o.pack()), want)
     tail = bytes.fromhex(c["tail"])
     for tag, buf in (("exact", want), ("tail", want + tail), ("bytearray", bytearray(want + tail))):
         u = H.PrimaryHeader.unpack(buf)
@@ -435,6 +447,10 @@ from ..names_check import names_clause  # noqa: E402
 
 if names_clause("C17") is not None:
     CLAUSES.append(names_clause("C17"))
+
+from ..envcheck import env_clauses  # noqa: E402
+
+CLAUSES.extend(env_clauses("C17", ("uslp",), n_quick=2, n_thorough=30))
 
 PROPERTY = Property(
     id="C17",
